@@ -11,9 +11,10 @@ for d in sorted(os.listdir(base)):
         continue
     if only and not any(d.startswith(o) for o in only):
         continue
-    prop = json.load(open(os.path.join(p, "meta.json")))["property"]
+    meta = json.load(open(os.path.join(p, "meta.json")))
+    props = [meta["property"]] + [c for c in meta.get("caught_by", []) if c != meta["property"]]
     res = None
-    for seeds in ("0", "1"):
+    for prop, seeds in [(pr, sd) for pr in props for sd in ("0", "1")]:
         t0 = time.time()
         r = subprocess.run(["/venv/bin/python", "/verif/tools/try_seeded.py", p, prop, "--seeds", seeds],
                            stdout=subprocess.PIPE, stderr=subprocess.STDOUT, text=True)
